@@ -3,8 +3,8 @@
 # name -> verify: .vc files proved in this unit; trusted: .vc files imported as contracts only (proved in their own unit)
 UNITS = {
     "prim": dict(verify=["common.vc"], trusted=[], spec=["wire.rs"]),
-    "topic": dict(verify=["topic.vc"], trusted=["common.vc"], spec=["wire.rs"]),
-    "v3": dict(verify=["v3.vc"], trusted=["common.vc", "topic.vc"], spec=["wire.rs"]),
+    "topic": dict(verify=["topic.vc"], trusted=["common.vc"], spec=[], spec_import=["wire.rs"]),
+    "v3": dict(verify=["v3.vc"], trusted=["common.vc", "topic.vc"], spec=[], spec_import=["wire.rs"]),
 }
 
 ASSUMPTIONS = {
